@@ -314,6 +314,16 @@ def execute(trace):
             if n_run == 2:
                 hit("second_run_on_residue")
 
+            exts = _exts(op["lang"])
+            eligible = elig_bytes = n_dirs = 0
+            for p_, v_ in before.items():
+                if not any((fsseam._inside(p_, ir) or p_ == ir) for ir in input_real):
+                    continue
+                if v_[0] == "d":
+                    n_dirs += 1
+                if v_[0] == "f" and os.path.splitext(p_)[1].lower() in exts:
+                    eligible += 1
+                    elig_bytes += v_[1]
             report_path = os.path.join(B, f"report{n_run}.json")
             stdio_path = os.path.join(B, f"stdio{n_run}.txt")
             plan = [dict(f) for f in op.get("faults", [])] if k["population"] == "faulted" else []
@@ -324,7 +334,9 @@ def execute(trace):
                         json.dump({"status": "crashed", "detail": "", "report": _report(seam)}, f)
                     os.replace(_rp + ".tmp", _rp)
                 seam = fsseam.Seam({"R": R, "W": _W, "allow": [home, tmpd], "force": _force, "preexisting": set(_before),
-                                    "faults": _plan, "on_die": on_die, "max_events": 2500})
+                                    "faults": _plan, "on_die": on_die, "max_events": 2500,
+                                    "input_roots": list(input_real), "max_input_copies": eligible,
+                                    "src_root": os.path.join(_W, "src"), "max_src_dirs": n_dirs + len(input_real) + 1})
                 seam.install()
                 return lambda: _report(seam)
 
@@ -388,19 +400,6 @@ def execute(trace):
                         "created": [p.replace(R, "<R>") for p in created[:6]], "n": [len(deleted), len(changed), len(created)]}}
             # ---- I4: bounded copy
             if not violation:
-                exts = _exts(op["lang"])
-                eligible = 0
-                elig_bytes = 0
-                n_dirs = 0
-                for p, v in before.items():
-                    under = [ir for ir in input_real if fsseam._inside(p, ir) or p == ir]
-                    if not under:
-                        continue
-                    if v[0] == "d":
-                        n_dirs += 1
-                    if v[0] == "f" and os.path.splitext(p)[1].lower() in exts:
-                        eligible += 1
-                        elig_bytes += v[1]
                 src_root = os.path.join(W, "src")
                 copies = [s for s in rep.get("copy_srcs", []) if any(fsseam._inside(s, ir) or s == ir for ir in input_real)]
                 bytes_under_src = sum(v[1] for p, v in after.items() if v[0] == "f" and fsseam._inside(p, src_root))
